@@ -42,14 +42,9 @@ def exactly_consecutive(bins: np.ndarray) -> Optional[bool]:
     if len(bins) < 2:
         return True
     a, b = bins[:-1, 1], bins[1:, 0]
-    if np.array_equal(a, b):
-        return True
-    d = np.abs(b - a)
-    tol = 1e-8 + 1e-5 * np.abs(a)
-    unequal = a != b
-    if np.all(d[unequal] > 100 * tol[unequal]):
-        return False
-    return None
+    # exact, as every assignment of a value to a bin is (the library's own predicate used to apply numpy's allclose
+    # tolerance, repaired as D64: the "ambiguous" answer None is not needed any more)
+    return bool(np.array_equal(a, b))
 
 
 def check_h1(rec: core.Recorder, h, data_flat: np.ndarray, weights_flat: Optional[np.ndarray], *,
